@@ -36,4 +36,17 @@ example : aLang.OK ∧ liDunes.Item ∧ nTitle.OK ∧ nAlt.OK ∧ (nAlt.prop == 
 example : ((readTag 9 descTag { rest := cTitle.ser ("</rdf:Description>").toUTF8.toList, a := false, toks := [] }).2.toks.reverse.map
       (fun t => (t.pt, t.self == nTitle.prop, t.parent == aLang.prop, t.val.length))) = [(1, true, true, 9), (2, true, false, 5)] := by decide +kernel
 
+/-- **A self-closing element is stepped over.**  `<ns:name/>` without attributes — an empty array written `<rdf:Bag/>`, an unknown
+empty property — costs one round of readTag, reports nothing and consumes exactly the tag; as `Child.solo` it may stand
+anywhere among the children of a Description in the packet theorems. -/
+theorem C13_self_closing_element_skipped (parent : Tag) (st : St) (ws : Bytes) (n : Name) (R : Bytes) (f : Nat)
+    (hr : st.rest = ws ++ 60 :: ((n.n0 :: n.ns) ++ 58 :: (n.name ++ 47 :: 62 :: R)))
+    (hws : ∀ x ∈ ws, (x == 60) = false) (hwin : ws.length + 128 ≤ W) (ok : n.OK) :
+    readTag (f + 1) parent st = readTag f parent { rest := R, a := false, toks := st.toks } :=
+  readTag_solo_exact parent st ws n R f hr hws hwin ok
+
+/-- non-vacuity: `<rdf:Bag/>` between two properties changes nothing but the position -/
+example : ((readTag 6 descTag { rest := serC [([], .elem eMake), ([], .solo nBag), ([10], .elem eModel)] ("</rdf:Description>").toUTF8.toList, a := false, toks := [] }).2.toks.reverse.map (·.val)) =
+    [[67, 97, 110, 111, 110], [69, 79, 83]] := by decide +kernel
+
 end Imeta.Props.C13
